@@ -186,6 +186,10 @@ pub fn mirror_scenario(prop: &str, seed: u64, index: u64) -> Option<Scenario> {
     };
     scn.calls = setup(0);
     scn.calls.push(solve.clone());
+    // Python only: the wrapper objects are mutated after the problem definition took its snapshot
+    if prop == "C19" && rng.chance(0.15) {
+        scn.params.insert("mutate_after_pd".into(), 1.0);
+    }
     // a start that coincides with the (fixed) goal sample: the core's path then repeats a state
     if prop == "C19" && rng.chance(0.06) {
         scn.problems[0].goal.target = scn.problems[0].starts[0].clone();
